@@ -84,6 +84,7 @@ func judgeOrder(c orderCase) error {
 func cfg() idl.Cfg {
 	c := idl.Full()
 	c.MaxFiles = 4
+	c.SameNames = true // a.ID and b.ID are different things
 	c.CppStuff = false
 	c.NastyLits = false
 	c.RawCtl = false
@@ -158,6 +159,20 @@ func classify(p *idl.Program, exp map[string]idl.Fact) (nontrivial bool) {
 	vt.ClassIf(crossChain, "typedef_chain>=2_crossing_files")
 	vt.ClassIf(qualConst, "constant_identifier_reference")
 	vt.ClassIf(sameBase, "two_includes_same_base_name")
+	owner, kindOf, sameName, sameNameOtherKind := map[string]*idl.File{}, map[string]idl.Kind{}, false, false
+	for _, f := range p.Files {
+		for _, d := range f.Defs {
+			if o, ok := owner[d.Name]; ok && o != f {
+				sameName = true
+				if kindOf[d.Name] != d.Kind {
+					sameNameOtherKind = true
+				}
+			}
+			owner[d.Name], kindOf[d.Name] = f, d.Kind
+		}
+	}
+	vt.ClassIf(sameName, "one_global_name_in_two_files")
+	vt.ClassIf(sameNameOtherKind, "one_global_name_in_two_files_different_kinds")
 	vt.ClassIf(len(p.Files) >= 3, "files>=3")
 	return crossChain && qualConst
 }
